@@ -303,3 +303,41 @@ CONTRACTS.update(
         ),
     }
 )
+
+# ------------------------------------------------------------------------------------------------ line-splitting bases (phase 1)
+CONTRACTS.update(
+    {
+        "vsg.rules.insert_carriage_return_after_token_if_it_is_not_followed_by_a_comment.insert_carriage_return_after_token_if_it_is_not_followed_by_a_comment._fix_violation": dict(
+            types={"oViolation": VIOL},
+            requires=["len(%s) >= 1" % S],
+            modifies=["oViolation.oTokens.lTokens", "heap:item.code_tags"],
+            ensures=[
+                # a line break is inserted behind the first token of the region and nothing else happens
+                "len(%s) == len(old(%s)) + 1" % (S, S),
+                "%s[:1] == old(%s)[:1] and isinstance(%s[1], parser.carriage_return) and %s[2:] == old(%s)[1:]" % (S, S, S, S, S),
+                "nonblank(%s) == nonblank(old(%s))" % (S, S),
+            ],
+        ),
+        "vsg.rules.split_line_at_token.split_line_at_token._fix_violation": dict(
+            types={"oViolation": VIOL},
+            requires=["len(%s) >= 2" % S],
+            modifies=["oViolation.oTokens.lTokens", "heap:item.code_tags"],
+            ensures=[
+                "len(%s) == len(old(%s)) + 1" % (S, S),
+                "nonblank(%s) == nonblank(old(%s))" % (S, S),
+                "ncr(%s) == ncr(old(%s)) + 1" % (S, S),
+            ],
+        ),
+    }
+)
+
+# naming rules (phase 7): token_prefix (token_suffix inherits the do-nothing default) never sets an action on their violations, so even when a user configures
+# 'fixable: true' the fix does nothing (C03: naming rules never change the file)
+for _b in ("token_prefix",):
+    CONTRACTS["vsg.rules.%s.%s._fix_violation" % (_b, _b)] = dict(
+        types={"oViolation": VIOL},
+        fields={"vsg.violation.New.action": "opt[str]"},
+        requires=["oViolation.action is None"],
+        modifies=[],
+        ensures=["%s == old(%s)" % (S, S)],
+    )
